@@ -13,7 +13,8 @@ NLines == Len(Trace)
 VARIABLES l, s
 tvars == <<l, s>>
 
-Fresh(run) == [c |-> run, o |-> <<>>, K |-> {}, ro |-> <<>>, viol |-> {}]
+\* so, sK: the snapshot held by the datastore (written by Persist, consumed by DrainDatastore)
+Fresh(run) == [c |-> run, o |-> <<>>, K |-> {}, ro |-> <<>>, so |-> <<>>, sK |-> {}, viol |-> {}]
 Ev == Trace[l]
 Is(e) == l <= NLines /\ Ev.e = e
 Flag(b, prop, id) == IF b THEN {} ELSE {<<prop, id>>}
@@ -31,6 +32,7 @@ Expect(op, p, ks) ==
     [] op = "rem" -> LET r == Rem(s.o, s.K, ks) IN <<r[1], r[2], {}, <<>>, TRUE>>
     [] op = "clear" -> <<<<>>, {}, {Cardinality(s.K)}, <<>>, TRUE>>
     [] op = "persist" -> LET r == PersistDrain(s.o, s.K) IN <<r[1], r[2], {}, <<>>, TRUE>>
+    [] op = "restart" -> LET r == PersistDrain(s.so, s.sK) IN <<r[1], r[2], {}, <<>>, TRUE>>
     [] OTHER -> <<s.o, s.K, {}, <<>>, TRUE>>
 
 OpLine ==
@@ -48,11 +50,14 @@ OpLine ==
          gotK == Range(Ev.qkeys)
      IN Step([s EXCEPT
           !.o = Ev.order, !.K = gotK, !.ro = Ev.rorder,
+          \* Persist replaces the stored snapshot by the current queue; a drain consumes it
+          !.so = IF op = "snap" THEN s.o ELSE IF op \in {"persist", "restart"} THEN <<>> ELSE @,
+          !.sK = IF op = "snap" THEN s.K ELSE IF op \in {"persist", "restart"} THEN {} ELSE @,
           !.viol = @
             \cup Flag(Ev.order = ex[1], "C19",
-                      IF op = "persist" THEN "d_persist_drain_changes_prefix_order" ELSE "c_prefix_order_wrong")
+                      IF op \in {"persist", "restart"} THEN "d_persist_drain_changes_prefix_order" ELSE "c_prefix_order_wrong")
             \cup Flag(gotK = ex[2], "C19",
-                      IF op = "persist" THEN "d_persist_drain_changes_keys" ELSE "a_key_set_wrong")
+                      IF op \in {"persist", "restart"} THEN "d_persist_drain_changes_keys" ELSE "a_key_set_wrong")
             \cup Flag(Len(Ev.qkeys) = Cardinality(gotK), "C19", "a_key_queued_twice")
             \cup Flag(op \in {"deq", "deqm", "clear"} => Range(Ev.retkeys) = ex[3], "C19", "b_returned_keys_wrong")
             \cup Flag(op = "deq" => (Ev.retok = ex[5] /\ (ex[5] => Ev.retprefix = ex[4])), "C19", "b_dequeue_not_oldest_prefix")
